@@ -7,6 +7,7 @@ open Biogo.Properties.C20_checker
 #print axioms maxStop_iff
 #print axioms add_checker_iff
 #print axioms tx_checker_sound
+#print axioms introns_gaps_on_transcript
 #print axioms gf_checker_sound
 #print axioms chain_split
 #print axioms query_positionWithin
